@@ -36,8 +36,17 @@ def main(argv):
         tier = argv[1]
     chk = lib.Check(prop, tier, seed)
     chk.proof = lib.proof_step(prop, tier)
+    ck_thread, ck_box = None, {}
+    if tier == "thorough" and chk.proof.get("ok"):
+        # the independent checker (coqchk -o) re-checks the property file's closure while the harness runs
+        import threading
+        ck_thread = threading.Thread(target=lambda: ck_box.update(lib.coqchk_step(prop)), daemon=True)
+        ck_thread.start()
     if chk.proof.get("ok"):
         mod.run(chk)
+    if ck_thread is not None:
+        ck_thread.join()
+        lib.merge_coqchk(chk.proof, ck_box or {"ok": False, "rc": None, "report": {}, "tail": "coqchk thread produced no result"})
     return chk.finish()
 
 
